@@ -206,6 +206,13 @@ func (w *World) shortKey(full string) string {
 // contractFor finds the contract that governs a call to the function with the given key.
 func (w *World) contractFor(full string, from *Unit) *Contract {
 	if ct, ok := w.cs.Funcs[full]; ok && ct.Opts["verify-only"] == "" {
+		// a unit that states its own assumption about a function of another unit (in its own vocabulary of
+		// ghosts and spec functions) keeps using it; the function's contract is verified where it lives
+		if from != nil && ct.Unit != from {
+			if ex, ok := w.cs.Externs[from.Name+"/"+full]; ok {
+				return ex
+			}
+		}
 		return ct
 	}
 	// assumed (extern) contracts are scoped to the unit that states them
